@@ -1,6 +1,7 @@
 import Oracle.Proto
 import MV.Model.ClusterManager
 import MV.Spec.ClusterRegistry
+import MV.Spec.ClusterJudge
 /-!
 Oracle suites of the cluster manager (C13): `cmgr` (the model `MV.Model.ClusterManager`) and
 `cmgr-spec` (the abstract registry `MV.Spec.ClusterRegistry`) over the same operation lines:
@@ -99,5 +100,121 @@ def spec : Suite where
         | _ => match parseOp toks with
           | some op => let (s', o) := ClusterRegistry.step s op; (some s', fmtOut o)
           | none => (st, "bad-op")
+
+end Oracle.ClusterManager
+
+/-! ## judge suite `cmgr-judge`: lines `op => implementation output` of suite `cmgr-conc` -/
+namespace Oracle.ClusterManager
+open MV.Model.ClusterManager MV.Spec MV.Spec.ClusterJudge
+
+def splitAt (sep : String) (l : List String) : List (List String) :=
+  let r := l.foldr (fun t (acc : List String × List (List String)) =>
+    if t == sep then ([], acc.1 :: acc.2) else (t :: acc.1, acc.2)) ([], [])
+  r.1 :: r.2
+
+def addrPrefix : List Char := "/user/cluster/".toList
+
+def parseAddr (cs : List Char) : Option Name :=
+  if addrPrefix.isPrefixOf cs then some (decName (String.ofList (cs.drop addrPrefix.length))) else none
+
+/-- split at the last `#` -/
+def splitHash (cs : List Char) : Option (List Char × List Char) :=
+  let r := cs.reverse
+  let inc := r.takeWhile (· != '#')
+  match r.dropWhile (· != '#') with
+  | _ :: rest => some (rest.reverse, inc.reverse)
+  | [] => none
+
+def parseReply (t : String) : Option Reply :=
+  if t == "E:ability" then some .errAbility
+  else if t == "E:create" then some .errCreate
+  else match t.toList with
+    | 'R' :: ':' :: rest =>
+      match splitHash rest with
+      | some (a, n) =>
+        match parseAddr a, (String.ofList n).toNat? with
+        | some name, some inc => some (.ref ⟨name, inc⟩)
+        | _, _ => none
+      | none => none
+    | _ => none
+
+def parsePairs : List String → Option (List Key)
+  | [] => some []
+  | i :: a :: rest => (parsePairs rest).map (fun l => (decName a, decName i) :: l)
+  | _ => none
+
+def stripBrackets (l : List String) : List String :=
+  let s := " ".intercalate l
+  let cs := s.toList.filter (fun c => c != '[' && c != ']')
+  ((String.ofList cs).splitOn " ").filter (· ≠ "")
+
+def parseCounts : List String → Option (List (Name × Nat))
+  | [] => some []
+  | a :: n :: rest =>
+    match parseAddr a.toList, n.toNat?, parseCounts rest with
+    | some name, some c, some l => some ((name, c) :: l)
+    | _, _, _ => none
+  | _ => none
+
+/-- replies of asker `k` (R*m requests, the j-th for pair (k+j) mod m) as observations -/
+def askerObs (pairs : List Key) (k : Nat) (toks : List String) : Option (List Obs) :=
+  let m := pairs.length
+  (toks.zipIdx).mapM (fun (t, j) =>
+    match parseReply t, pairs[(k + j) % m]? with
+    | some r, some p => some (p, r)
+    | _, _ => none)
+
+def judgePar (t : ClusterRegistry.Reg) (K R : Nat) (pairs : List Key) (impl : List String) :
+    ClusterRegistry.Reg × String :=
+  match splitAt ";" impl with
+  | [askers, "launches" :: counts] =>
+    let parts := splitAt "|" askers
+    if parts.length ≠ K then (t, "bad:shape") else
+    let obs? := (parts.zipIdx).mapM (fun (p, k) =>
+      match p with
+      | tag :: toks =>
+        if tag == "k" ++ toString k && toks.length = R * pairs.length then askerObs pairs k toks else none
+      | [] => none)
+    match obs?, parseCounts (stripBrackets counts) with
+    | some obss, some reported =>
+      let obs := obss.flatten
+      let v := verdict t obs reported
+      if v == "ok" then (advance t obs, "ok") else (t, v)
+    | none, _ => (t, "bad:request-not-answered")
+    | _, none => (t, "bad:shape")
+  | [_, _, ["panic"]] => (t, "bad:manager-failed")
+  | _ => (t, "bad:request-not-answered")
+
+def judge : Suite where
+  σ := Option ClusterRegistry.Reg
+  init := none
+  step st toks :=
+    match splitAt "=>" toks with
+    | [op, impl] =>
+      match op with
+      | "new" :: as =>
+        let l := as.map decName
+        if l.eraseDups.length = l.length then
+          (some (ClusterRegistry.init l), if impl == ["ok"] then "ok" else "bad:new")
+        else (none, if impl == ["panic"] then "ok" else "bad:new")
+      | _ => match st with
+        | none => (none, if impl == ["bad-op"] then "ok" else "bad:op-before-new")
+        | some t =>
+          match op with
+          | "par" :: k :: r :: m :: rest =>
+            match k.toNat?, r.toNat?, m.toNat?, parsePairs rest with
+            | some K, some R, some m, some pairs =>
+              if pairs.length = m ∧ 0 < m then
+                let (t', v) := judgePar t K R pairs impl
+                (some t', v)
+              else (st, if impl == ["bad-op"] then "ok" else "bad:shape")
+            | _, _, _, _ => (st, if impl == ["bad-op"] then "ok" else "bad:shape")
+          | _ => match parseOp op with
+            | some o =>
+              let (t', out) := ClusterRegistry.step t o
+              if " ".intercalate impl == fmtOut out then (some t', "ok")
+              else (some t', "bad:" ++ (op.headD "op") ++ "-answer")
+            | none => (st, if impl == ["bad-op"] then "ok" else "bad:unknown-op")
+    | _ => (st, "bad-op")
 
 end Oracle.ClusterManager
